@@ -45,8 +45,8 @@ ASSUMPTIONS = [
     "frames with an identification datagram but a group number >= 64 are "
     "only checked for not being dropped (the statement is silent)",
     "the bus model adds the expected working counter to every enabled "
-    "datagram of a frame that was sent back (off by one where the case says "
-    "so)",
+    "datagram of a frame that was sent back (off by 1, 255, 256, 513 or -1 "
+    "where the case says so)",
 ]
 EXAMPLES = {"quick": 80, "thorough": 600}
 MIN_NONTRIVIAL = {"quick": 60, "thorough": 1000}
@@ -66,6 +66,7 @@ def strategy(tier):
         | st.integers(0, 2**32 - 1),
         "registered": st.booleans(),
         "wkc_errors": st.sampled_from([0, 1, 1, 5]),
+        "wrong_delta": st.sampled_from([1, 1, 255, 256, 513, 65535]),
         "rules": st.lists(rule, min_size=3, max_size=40).map(
             lambda rs: [("inject", 0, []), ("inject", 0, [])] + rs),
     })
@@ -290,8 +291,9 @@ def run_case(case, only_c21=False):
                             return fail("a frame of an unregistered group "
                                         "was returned to the bus three "
                                         "times in a row")
-                    inflight.append(world.bus_pass(res["frame"],
-                                                   set(extra)))
+                    inflight.append(world.bus_pass(
+                        res["frame"], set(extra),
+                        case.get("wrong_delta", 1)))
                 else:
                     kinds[-1] += "p"
                     returned_in_row = 0
